@@ -876,7 +876,7 @@ func rule(name string, dl bool) string {
 	}
 	return fmt.Sprintf("%s created with one element; calls %s with fresh distinct non-zero values; node = Find(value at a model position) immediately before use; "+
 		"Delete never gets nil. Slice model; after every call: Each (callback bounded by len+5), First/Last (DList), Find of every element (a sample above %d elements) and of an absent value, "+
-		"Each again; returned errors (nil handle, absent Replace, Delete of the only element) and panics. After the calls of the case a fixed closing script (insert next to every node, "+
+		"Each again; returned errors (nil handle or, every other time, a node of no list whose value is absent; absent Replace; Delete of the only element) and panics. After the calls of the case a fixed closing script (insert next to every node, "+
 		"delete down to one element, refusal, grow again) is checked the same way. Enumerated: every call sequence up to length %d (thorough %d), positions ranging over the exact current length "+
 		"(injective); random: up to 100 (300) calls, positions mod length. Non-trivial = a call that replaced the first element (Unshift, Shift, Delete/InsertBefore at the front) is followed later by a %s "+
 		"at a position >= 1, or the list shrank to one element and grew again (closing script not counted). Distinct = enumerated cases + hash-distinct random cases longer than the enumerated length.",
